@@ -329,6 +329,7 @@ func ruleC12FailedAccessNeutral(c *Ctx) {
 			c.unresolved(name, "method")
 			continue
 		}
+		f = bodyWith(f, func(i ssa.Instruction) bool { return mcOp(i) == "Protect" })
 		inc := counterStores(f, token.ADD)
 		n := 0
 		allInstrs(f, func(i ssa.Instruction) {
